@@ -139,14 +139,27 @@ class Pif(FunctionPattern):
         true_stream = stm.stream(self.iftrue)
         false_stream = stm.stream(self.iffalse)
 
+        ended = False
+
         def next_func(inval):
-            test = cond_stream.next(inval)
-            if test:
-                return true_stream.next(inval)
-            else:
-                return false_stream.next(inval)
+            nonlocal ended
+            if ended:
+                raise stm.StopStream
+            try:
+                test = cond_stream.next(inval)
+                if test:
+                    return true_stream.next(inval)
+                else:
+                    return false_stream.next(inval)
+            except stm.PausedStream:
+                raise  # Transient, the stream has not ended.
+            except stm.StopStream:
+                ended = True  # The stream ends with the first StopStream.
+                raise
 
         def reset_func():
+            nonlocal ended
+            ended = False
             cond_stream.reset()
             true_stream.reset()
             false_stream.reset()
